@@ -1,7 +1,17 @@
 (* C13 — executable model of queasars/utility/spsa_termination.py (definitions only).
    SPSATerminationChecker.termination_check transcribed statement by statement, including the implicit reset
-   (previous call answered through the change criterion, or the evaluation counter decreased), maxfev, the accepted
-   filter and the best-value bookkeeping.  Parameter vectors are opaque tokens (Z).  Flags as in Criteria.v. *)
+   (previous call answered through the change criterion, or the evaluation counter did not increase), maxfev, the
+   accepted filter and the best-value bookkeeping.  Parameter vectors are opaque tokens (Z).  Flags as in Criteria.v;
+   [nonincreasing_boundary fl = false] is the behaviour before fix 05ee1f9 (reset only on a strictly smaller counter).
+
+   Which optimiser behaviour the implicit reset covers.  Within one run of qiskit_algorithms' SPSA the evaluation
+   counter strictly increases from callback to callback (every iteration evaluates the objective at least twice), and
+   every run of one optimiser configuration issues its first callback with the same counter.  Hence the first counter
+   of a new run never exceeds the last counter of the previous run, and "counter did not increase" recognises every
+   such run start (Spsa_proofs.v: spsa_segments_runs, spsa_first_count_constant).  NOT recognisable: a new run whose
+   first counter is larger than the last counter of the previous run that was not ended by the change criterion (for
+   example optimisers with different settings sharing one checker): it is indistinguishable from a continuation
+   (Spsa_proofs.v: spsa_unrecognisable_example); that case is outside the property and is not demanded by the checks. *)
 From QV Require Import Common.Base Crit.Criteria.
 From Coq Require Import QArith Qabs.
 Open Scope Q_scope.
@@ -26,10 +36,14 @@ Definition spsa_init : spsa_state :=
 Definition maxfev_hit (maxfev : option Z) (n : Z) : bool :=
   match maxfev with Some m => (m <=? n)%Z | None => false end.
 
+(* n_function_evaluations <= self._n_function_evaluations   (before fix 05ee1f9: < ) *)
+Definition boundary_hit (fl : flags) (n stored : Z) : bool :=
+  if nonincreasing_boundary fl then (n <=? stored)%Z else (n <? stored)%Z.
+
 Definition spsa_step (fl : flags) (thr : Q) (v : nat) (maxfev : option Z) (s : spsa_state) (i : spsa_in)
   : spsa_state * result bool :=
-  (* if self._done or n_function_evaluations < self._n_function_evaluations: reset everything *)
-  let s1 := if done s || (si_n i <? nfe s)%Z then spsa_init else s in
+  (* if self._done or n_function_evaluations <= self._n_function_evaluations: reset everything *)
+  let s1 := if done s || boundary_hit fl (si_n i) (nfe s) then spsa_init else s in
   (* self._n_function_evaluations = n_function_evaluations *)
   let s2 := {| fv_hist := fv_hist s1; ch_hist := ch_hist s1; nfe := si_n i; nfe_hist := nfe_hist s1;
                best_f := best_f s1; best_par := best_par s1; done := done s1 |} in
@@ -99,14 +113,14 @@ Definition spsa_criterion_fired (thr : Q) (v : nat) (maxfev : option Z) (seg : l
   negb (maxfev_hit maxfev (si_n i)) && spsa_answer thr v maxfev seg i.
 
 (* Whole callback sequence: a new optimiser run is recognised when the previous callback was answered "terminate"
-   by the change criterion or when the evaluation counter decreases; [seg] is the current run so far, [lastn] the
-   counter of the previous callback (0 before the first), [closed] whether the criterion fired on it. *)
+   by the change criterion or when the evaluation counter does not increase; [seg] is the current run so far, [lastn]
+   the counter of the previous callback (0 before the first), [closed] whether the criterion fired on it. *)
 Fixpoint spsa_spec (thr : Q) (v : nat) (maxfev : option Z) (seg : list spsa_in) (lastn : Z) (closed : bool) (h : list spsa_in)
   : list (result bool) :=
   match h with
   | [] => []
   | i :: r =>
-      let seg' := if closed || (si_n i <? lastn)%Z then [] else seg in
+      let seg' := if closed || (si_n i <=? lastn)%Z then [] else seg in
       Ok (spsa_answer thr v maxfev seg' i)
         :: spsa_spec thr v maxfev (seg' ++ [i]) (si_n i) (spsa_criterion_fired thr v maxfev seg' i) r
   end.
